@@ -446,6 +446,8 @@ pub struct Verdict {
     /// convex-hull certificate: least accepted bucket below `k_idx` (tried only when `k_idx > 0`
     /// and no violation is proved)
     pub hull: Option<usize>,
+    /// eps-free verdict (hull checker at r2 = tol²), evaluated on request
+    pub free: Option<bool>,
     pub viol: Option<(usize, usize)>,
 }
 
@@ -459,7 +461,11 @@ impl Verdict {
             None => "h-".to_string(),
             Some(i) => format!("h{}", i),
         };
-        format!("s{}:v{}:k{}:n{}.{}.{}:{}:{}", self.structure as u8, self.vtx as u8, self.k_idx, self.kinds[0], self.kinds[1], self.kinds[2], h, x)
+        let e = match self.free {
+            None => "e-".to_string(),
+            Some(b) => format!("e{}", b as u8),
+        };
+        format!("s{}:v{}:k{}:n{}.{}.{}:{}:{}:{}", self.structure as u8, self.vtx as u8, self.k_idx, self.kinds[0], self.kinds[1], self.kinds[2], h, e, x)
     }
     /// the factor finally proved: the hull certificate's if it succeeded, else the chord certificate's
     pub fn final_idx(&self) -> usize {
@@ -494,8 +500,21 @@ fn first_viol(pt: &dyn Fn(&Dy) -> Pt, r2: &Dy, all: &[&SegX], cands: &[(usize, D
     None
 }
 
+/// `epsFree` of Drive/FlatChkIO.lean
+fn eps_free(eflag: bool, structure: bool, k_idx: usize, hull: Option<usize>, accept: &dyn Fn() -> bool) -> Option<bool> {
+    if !eflag || !structure {
+        None
+    } else if hull == Some(0) {
+        Some(true)
+    } else if k_idx == 0 {
+        Some(accept())
+    } else {
+        Some(false)
+    }
+}
+
 /// mirror of `Drive/FlatChkIO.lean handleQuad`
-pub fn verdict_quad(q: &QuadX, tol: &Dy, eps: &Dy, l: &[SegX]) -> Verdict {
+pub fn verdict_quad(q: &QuadX, tol: &Dy, eps: &Dy, l: &[SegX], eflag: bool) -> Verdict {
     let structure = chain_ok(&q.a, &Dy::zero(), &q.b, &Dy::int(1), l);
     let eps2 = eps.sq();
     let tol2 = tol.sq();
@@ -529,11 +548,12 @@ pub fn verdict_quad(q: &QuadX, tol: &Dy, eps: &Dy, l: &[SegX]) -> Verdict {
     } else {
         hull_bucket(&|rn, rd| chk_hull(&|t| q.sample(t), &|a, b| q.split_ctrl(a, b), &q.a, &q.b, rn, rd, &HULL_MS, HULL_W, l), tol, k_idx)
     };
-    Verdict { structure, vtx, k_idx, kinds, hull, viol }
+    let free = eps_free(eflag, structure, k_idx, hull, &|| chk_hull(&|t| q.sample(t), &|a, b| q.split_ctrl(a, b), &q.a, &q.b, &tol2, &Dy::int(1), &HULL_MS, HULL_W, l));
+    Verdict { structure, vtx, k_idx, kinds, hull, free, viol }
 }
 
 /// mirror of `Drive/FlatChkIO.lean handleCubic`
-pub fn verdict_cubic(c: &CubicX, tol: &Dy, tolq: &Dy, tolc: &Dy, eps: &Dy, ps: &[PieceX], gl: &[SegX]) -> Verdict {
+pub fn verdict_cubic(c: &CubicX, tol: &Dy, tolq: &Dy, tolc: &Dy, eps: &Dy, ps: &[PieceX], gl: &[SegX], eflag: bool) -> Verdict {
     let one = Dy::int(1);
     // rangesOK / joinsOK / chainOK of every piece
     let mut structure = !ps.is_empty();
@@ -606,7 +626,8 @@ pub fn verdict_cubic(c: &CubicX, tol: &Dy, tolq: &Dy, tolc: &Dy, eps: &Dy, ps: &
     } else {
         hull_bucket(&|rn, rd| chk_hull(&|t| c.sample(t), &|a, b| c.split_ctrl(a, b), &c.a, &c.b, rn, rd, &HULL_MS, HULL_W, gl), tol, k_idx)
     };
-    Verdict { structure, vtx, k_idx, kinds, hull, viol }
+    let free = eps_free(eflag, structure, k_idx, hull, &|| chk_hull(&|t| c.sample(t), &|a, b| c.split_ctrl(a, b), &c.a, &c.b, &tol.sq(), &Dy::int(1), &HULL_MS, HULL_W, gl));
+    Verdict { structure, vtx, k_idx, kinds, hull, free, viol }
 }
 
 
@@ -755,4 +776,118 @@ pub fn max_vtx_err(q: &QuadX, l: &[SegX]) -> f64 {
         m = m.max(s.a.sub(&q.sample(&s.t0)).sq_len().approx()).max(s.b.sub(&q.sample(&s.t1)).sq_len().approx());
     }
     m.sqrt()
+}
+
+// ---------------------------------------------------------------------------------------------
+// arcs: mirror of `Lyon.ArcChk` (Model/Geom/FlattenCertArc.lean) / `Drive/FlatChkIO.lean Arc.handle`
+
+/// point of the unit circle `(nx, ny)/d` from a half-angle tangent `u` (negated if `flip`)
+#[derive(Clone, Debug)]
+pub struct UPt {
+    pub nx: Dy,
+    pub ny: Dy,
+    pub d: Dy,
+}
+
+impl UPt {
+    pub fn of(u: f64, flip: bool) -> UPt {
+        let u = Dy::from_f64(u);
+        let u2 = u.sq();
+        let one = Dy::int(1);
+        let (nx, ny) = (one.sub(&u2), u.mul_i(2));
+        UPt { nx: if flip { nx.neg() } else { nx }, ny: if flip { ny.neg() } else { ny }, d: one.add(&u2) }
+    }
+    pub fn same(&self, o: &UPt) -> bool {
+        self.nx.mul(&o.d).eq(&o.nx.mul(&self.d)) && self.ny.mul(&o.d).eq(&o.ny.mul(&self.d))
+    }
+}
+
+pub struct FrameX {
+    pub center: Pt,
+    pub rx: Dy,
+    pub ry: Dy,
+    pub rot: UPt,
+}
+
+impl FrameX {
+    /// `|v − A(p)|² ≤ eps²`, cross-multiplied by the denominators
+    pub fn vtx_le(&self, v: &Pt, p: &UPt, eps2: &Dy) -> bool {
+        let dd = self.rot.d.mul(&p.d);
+        let (x, y) = (self.rx.mul(&p.nx), self.ry.mul(&p.ny));
+        let num = Pt { x: self.rot.nx.mul(&x).sub(&self.rot.ny.mul(&y)), y: self.rot.ny.mul(&x).add(&self.rot.nx.mul(&y)) };
+        let e = v.sub(&self.center).smul(&dd).sub(&num);
+        e.sq_len().le(&eps2.mul(&dd.sq()))
+    }
+    /// largest squared vertex error as a pair (numerator, denominator) is not needed: the harness
+    /// tries the candidate allowances in turn
+    pub fn vtx_all(&self, l: &[ArcSegX], eps: f64) -> bool {
+        let e2 = Dy::from_f64(eps).sq();
+        l.iter().all(|x| self.vtx_le(&x.sg.a, &x.pa, &e2) && self.vtx_le(&x.sg.b, &x.pb, &e2))
+    }
+}
+
+pub struct ArcSegX {
+    pub sg: SegX,
+    pub pa: UPt,
+    pub pb: UPt,
+}
+
+pub struct ArcVerdict {
+    pub structure: bool,
+    pub vtx: bool,
+    pub k_idx: usize,
+}
+
+impl ArcVerdict {
+    pub fn string(&self) -> String {
+        format!("s{}:v{}:k{}", self.structure as u8, self.vtx as u8, self.k_idx)
+    }
+    pub fn bucket(&self) -> String {
+        if !self.structure {
+            "structure".to_string()
+        } else if !self.vtx {
+            "vertex-eps".to_string()
+        } else if self.k_idx < K_BUCKETS.len() {
+            format!("k<={}", K_BUCKETS[self.k_idx].2)
+        } else {
+            "k>4".to_string()
+        }
+    }
+}
+
+pub fn verdict_arc(f: &FrameX, r: &Dy, tol: &Dy, eps: f64, p0: &Pt, pe: &Pt, l: &[ArcSegX]) -> ArcVerdict {
+    let segs: Vec<SegX> = l.iter().map(|x| x.sg.clone()).collect();
+    let r2 = r.sq();
+    let mut structure = r.sign() > 0 && f.rx.sq().le(&r2) && f.ry.sq().le(&r2) && chain_ok(p0, &Dy::zero(), pe, &Dy::int(1), &segs);
+    for i in 1..l.len() {
+        structure = structure && l[i - 1].pb.same(&l[i].pa);
+    }
+    let vtx = f.vtx_all(l, eps);
+    // chords: L² = |pb − pa|² as a fraction
+    let ls: Vec<(Dy, Dy)> = l
+        .iter()
+        .map(|x| {
+            let dx = x.pb.nx.mul(&x.pa.d).sub(&x.pa.nx.mul(&x.pb.d));
+            let dy = x.pb.ny.mul(&x.pa.d).sub(&x.pa.ny.mul(&x.pb.d));
+            (dx.sq().add(&dy.sq()), x.pa.d.mul(&x.pb.d).sq())
+        })
+        .collect();
+    let mut k_idx = K_BUCKETS.len();
+    for (i, (n, m, _)) in K_BUCKETS.iter().enumerate() {
+        // kt = k·tol + eps = nt/m
+        let nt = tol.mul_i(*n).add(&Dy::from_f64(eps).mul_i(*m));
+        let mr = r.mul_i(*m);
+        let ok = if nt.le(&mr) {
+            // τ = n·tol/(m·R): L² ≤ 4τ(2−τ) = 4·nt·(2·mr − nt)/mr²
+            let rhs = nt.mul(&mr.mul_i(2).sub(&nt)).mul_i(4);
+            ls.iter().all(|(ln, ld)| ln.mul(&mr.sq()).le(&rhs.mul(ld)))
+        } else {
+            ls.iter().all(|(ln, ld)| ln.le(&ld.mul_i(4)))
+        };
+        if ok {
+            k_idx = i;
+            break;
+        }
+    }
+    ArcVerdict { structure, vtx, k_idx }
 }
